@@ -420,6 +420,26 @@ class Body:
         return None
 
 
+def inlined_calls(f, b):
+    """calls of a function body together with the calls made by the closures it hands to other calls (iterator adaptors such as
+    for_each / map / all): yields (site, t, owner, adaptor) where `site` is the block of the parent body at which the call happens
+    (the adaptor call for a closure), `owner` the body containing the call and `adaptor` the parent terminator (None for direct calls)"""
+    for bi, t in b.calls():
+        yield bi, t, b, None
+    for r in f.closures_of(b.path):
+        cb = body(r)
+        line = r["sp"].split(":")[1] if r.get("sp") else None
+        site = None
+        adaptor = None
+        for bi, t in b.calls():
+            if any(g.startswith("{closure@") and g.split(":")[1] == line for g in t.get("ga", [])):
+                site, adaptor = bi, t
+        if site is None:
+            continue
+        for cbi, ct in cb.calls():
+            yield site, ct, cb, adaptor
+
+
 def _join(b, pp, proj):
     pp = list(pp)
     proj = list(proj)
